@@ -43,10 +43,6 @@ BINOP_LEAN = {"__add__": "add", "__sub__": "sub", "__mul__": "mul", "__matmul__"
               "__lt__": "lt", "__le__": "le", "__gt__": "gt", "__ge__": "ge", "__eq__": "eq", "__ne__": "ne"}
 
 
-def _listing(x):
-    return ("iter", list(x))
-
-
 CONV = {  # name -> (function, the chain of dunders CPython consults, in order)
     "neg": (operator.neg, ["__neg__"]), "pos": (operator.pos, ["__pos__"]), "abs": (abs, ["__abs__"]),
     "invert": (operator.invert, ["__invert__"]),
@@ -58,8 +54,8 @@ CONV = {  # name -> (function, the chain of dunders CPython consults, in order)
     "floor": (math.floor, ["__floor__", "__float__", "__index__"]),
     "ceil": (math.ceil, ["__ceil__", "__float__", "__index__"]),
     "index": (operator.index, ["__index__"]),
-    "iter": (lambda a: _listing(iter(a)), ["__iter__"]),
-    "reversed": (lambda a: _listing(reversed(a)), ["__reversed__"]),
+    "iter": (iter, ["__iter__"]),                 # iterator results are listed by `run`
+    "reversed": (reversed, ["__reversed__"]),
 }
 UNARY_NAMES = ["neg", "pos", "abs", "invert"]
 CONTAINER_CONV = ["len", "iter", "reversed"]
@@ -110,6 +106,8 @@ def build_classes(specs):
 
     def make_unary(cname, dunder, beh):
         def method(self, *args):
+            if dunder == "__getitem__" and args and type(args[0]) is int and not 0 <= args[0] < 2:
+                raise IndexError("generated")      # keeps the old-style iteration protocol finite
             return act(beh, cname, dunder)
         method.__name__ = dunder
         return method
@@ -275,8 +273,8 @@ def run(f, *args):
             r = f(*args)
             wrapped = is_proxy(r)
             r = unwrap(r)
-            if type(r) is tuple and len(r) == 2 and r[0] == "iter":
-                r = ("iter", [unwrap(x) for x in r[1]])
+            if hasattr(type(r), "__next__"):
+                r = ("iter", [unwrap(x) for x in r])
         return ("ok", r, wrapped, buf.getvalue())
     except RecursionError:
         return ("exc", "RecursionError", None, buf.getvalue())
@@ -371,9 +369,7 @@ def run_case(case):
         real = run(len, *raw)
     else:
         real = run(f, *raw)
-    # fresh operands for the proxy run (operations could mutate containers)
-    _, _, prox = case_operands(case)
-    got = run(f, *prox)
+    got = run(f, *prox)       # same underlying objects: none of the listed operations mutates its operands
     return real, got
 
 
